@@ -26,7 +26,7 @@ import (
 
 var valChars = []string{"a", "b", "5", " ", "\t", "\n", "*", "?", "/", `\`, "'", ":", "(", ")", "[", "+", "-", "~", "^", "!", ",", "%", "_", ";", "é", "中", "😀"}
 
-var c08Slots = []string{"eq", "cmp", "lo", "hi", "list", "bare", "field"}
+var c08Slots = []string{"eq", "cmp", "lo", "hi", "list", "bare", "baredf", "field"}
 
 func init() {
 	enum.ByteAlphabets["val"] = valChars
@@ -35,9 +35,9 @@ func init() {
 		ID:    "C08",
 		Title: "Quoting and escaping deliver values verbatim",
 		Units: func(tier string) []core.Unit {
-			l := 3
+			l := 4
 			if tier == "thorough" {
-				l = 4
+				l = 5
 			}
 			var us []core.Unit
 			for _, u := range enum.SeqUnits("bytes", "val", len(valChars), l, 1) {
@@ -58,6 +58,9 @@ func init() {
 					if kind == "quote" && slot == "field" {
 						continue
 					}
+					if kind == "escape" && slot == "baredf" && s == "D" {
+						continue
+					}
 					if kind == "escape" && !escapable(s) {
 						continue
 					}
@@ -67,15 +70,15 @@ func init() {
 		},
 		Eval:   c08Eval,
 		Shrink: c08Shrink,
-		Rule: "every string of <= L runes over 27 characters (letters, digit, space, tab, newline, * ? / \\ ' : ( ) [ + - ~ ^ ! , % _ ; é 中 😀; the escaping clause adds \") placed, quoted resp. backslash-escaped, as equality value, comparison value, either range bound, list element, bare term and (escaping) field name; " +
+		Rule: "every string of <= L runes over 27 characters (letters, digit, space, tab, newline, * ? / \\ ' : ( ) [ + - ~ ^ ! , % _ ; é 中 😀; the escaping clause adds \") placed, quoted resp. backslash-escaped, as equality value, comparison value, either range bound, list element, bare term (also as the whole query under a default field) and (escaping) field name; " +
 			"non-trivial = accepted by Parse; distinct = distinct (string, slot) pairs accepted",
 		Assumptions: []string{"strings that Go reads as numbers (incl. Inf/NaN) and the keywords AND OR NOT TO are excluded from the escaping clause; strings with NUL or invalid UTF-8 are outside the quantifier",
 			"if the inline renderer rejects the query (C03's business) the sql clause is skipped"},
 		Bounds: func(tier string) map[string]any {
 			if tier == "thorough" {
-				return map[string]any{"L": 4, "sql_checked_upto": 3}
+				return map[string]any{"L": 5, "sql_checked_upto": 3}
 			}
-			return map[string]any{"L": 3, "sql_checked_upto": 3}
+			return map[string]any{"L": 4, "sql_checked_upto": 3}
 		},
 		Deadline: func(tier string) int {
 			if tier == "thorough" {
@@ -149,15 +152,23 @@ func c08Eval(c core.Case) (res core.Result) {
 	} else {
 		v = qast.W(escapeWord(w))
 	}
+	var df core.BStr
+	if slot == "baredf" {
+		// the bare term as the whole query under a default field: D:<value>, still a plain string
+		slot, df = "bare", "D"
+	}
 	leaf := c08Leaf(slot, v)
 	text := qast.Text(leaf, nil)
 	want := qast.Build(leaf)
-	p := doParse(text, "")
+	if df != "" {
+		want = qast.Build(qast.Lf(qast.Leaf{Kind: qast.LEq, Field: string(df), Val: v}))
+	}
+	p := doParse(text, df)
 	if p.pi != nil {
 		res.Tags = append(res.Tags, "skipped_upstream_panic")
 		return
 	}
-	cls := c.Kind + "/" + slot
+	cls := c.Kind + "/" + string(c.Aux)
 	if p.err != nil || p.e == nil {
 		add("tree", cls+" rejected", fmt.Sprintf("Parse(%q): %v", text, p.err), gostr(want))
 		return
@@ -168,10 +179,10 @@ func c08Eval(c core.Case) (res core.Result) {
 		add("tree", cls+" different-value", fmt.Sprintf("Parse(%q) = %s", text, gostr(p.e)), gostr(want))
 		return
 	}
-	if c.Kind != "quote" || slot == "bare" || len([]rune(w)) > 3 {
+	if c.Kind != "quote" || slot == "bare" && df == "" || len([]rune(w)) > 3 {
 		return
 	}
-	sql, err, pi := toPostgres(text, "")
+	sql, err, pi := toPostgres(text, df)
 	if pi != nil {
 		res.Tags = append(res.Tags, "skipped_upstream_panic")
 		return
@@ -194,7 +205,7 @@ func c08Eval(c core.Case) (res core.Result) {
 			add("sql", cls+" constant-differs", fmt.Sprintf("%s decodes to constants %q", sql, rd.Strings), fmt.Sprintf("a string constant equal to %q", w))
 		}
 	}
-	_, params, perr, ppi := toParam(text, "")
+	_, params, perr, ppi := toParam(text, df)
 	if ppi != nil || perr != nil {
 		res.Tags = append(res.Tags, "skipped_param_fails")
 		return
